@@ -13,10 +13,13 @@ Scratch space: /var/tmp/vmut/w<worker>/ (removed by `tools/mutate.py clean`).
 """
 import glob, hashlib, json, os, random, re, shutil, subprocess, sys, time
 
-REPO = "/repo"
+REPO = "/var/tmp/vmut/pristine/repo"   # git archive of /repo HEAD: never the live working tree
+LIVE_REPO = "/repo"
 VERIF = "/verif"
+PVERIF = "/var/tmp/vmut/pristine/verif"   # git archive of /verif HEAD
 SCR = "/var/tmp/vmut"
 OUT = VERIF + "/mutation/results.jsonl"
+META = VERIF + "/mutation/run_info.json"
 CHECKS = ["C01", "C02", "C03", "C04", "C06", "C07", "C08", "C09", "C10", "C11", "C12", "C13", "C14", "C15", "C16", "C17"]
 
 # (name, regex, replacement) applied to one occurrence on one line
@@ -64,7 +67,16 @@ OPS = [
 DEL = re.compile(r"^\s*(\*?self\.[a-z_\.]+(\[[^\]]*\])? (\+|-|\^)?= .*;|\*[a-z_\.]+ = .*;|xor\(.*\);|[a-z_\.]+\.zeroize\(\);|self\.[a-z_\.]+\.zeroize\(\);|core::mem::swap\(.*\);|[a-z_]+\[[^\]]*\]\.copy_from_slice\(.*\);|[a-z_\.]+\(\)\.copy_from_slice\(.*\);|[a-z_\.]+\(\)\[[^\]]*\]\.copy_from_slice\(.*\);|cn\.ctr = .*;|s = s\.wrapping_add\(1\);|block\[[^\]]*\]\.copy_from_slice\(.*\);)\s*$")
 
 
+def ensure_pristine():
+    if not os.path.isdir(REPO):
+        os.makedirs(REPO, exist_ok=True)
+        os.makedirs(PVERIF, exist_ok=True)
+        sh("git -C %s archive HEAD | tar -x -C %s" % (LIVE_REPO, REPO))
+        sh("git -C %s archive HEAD | tar -x -C %s" % (VERIF, PVERIF))
+
+
 def sources():
+    ensure_pristine()
     fs = []
     for f in sorted(glob.glob(REPO + "/*/src/**/*.rs", recursive=True)):
         fs.append(f)
@@ -123,10 +135,7 @@ def setup_worker(w):
     if not os.path.isdir(repo):
         sh("rsync -a --exclude target --exclude .git %s/ %s/" % (REPO, repo))
     if not os.path.isdir(ver):
-        sh("rsync -a --exclude target --exclude target-nz --exclude .git --exclude replays --exclude seeded --exclude mutation %s/ %s/" % (VERIF, ver))
-    # refresh harness sources every time (the harness may have changed), keep build dirs
-    sh("rsync -a --delete --exclude target --exclude target-nz %s/sim/ %s/sim/" % (VERIF, ver))
-    sh("cp %s/vcheck %s/known_findings.json %s/" % (VERIF, VERIF, ver))
+        sh("rsync -a --exclude seeded --exclude mutation --exclude evidence %s/ %s/" % (PVERIF, ver))
     t = open(ver + "/sim/Cargo.toml").read().replace('path = "/repo/', 'path = "%s/' % repo)
     open(ver + "/sim/Cargo.toml", "w").write(t)
     return repo, ver
@@ -216,6 +225,11 @@ if __name__ == "__main__":
         print(ops)
     elif cmd == "run":
         os.makedirs(VERIF + "/mutation", exist_ok=True)
+        ensure_pristine()
+        if not os.path.exists(META):
+            rh = subprocess.run("git -C /repo rev-parse HEAD", shell=True, stdout=subprocess.PIPE).stdout.decode().strip()
+            vh = subprocess.run("git -C /verif rev-parse HEAD", shell=True, stdout=subprocess.PIPE).stdout.decode().strip()
+            json.dump({"repo_commit": rh, "verif_commit": vh, "note": "mutants are applied to private copies of `git archive HEAD` of /repo; checks come from `git archive HEAD` of /verif"}, open(META, "w"), indent=1)
         run(int(sys.argv[2]), int(sys.argv[3]), int(sys.argv[4]) if len(sys.argv) > 4 else 0)
     elif cmd == "summary":
         summary()
